@@ -913,6 +913,63 @@ def curvedgen_unit():
 
 
 # ----------------------------------------------------------------------------------------------------------
+# geostructures/coordinates.py :: Coordinate.xyz, Coordinate._from_xyz; _geometry.py :: dist_xyz_meters   (C07)
+#
+# generic over `Num α`; a Python list of floats is a Lean list (`xyz` returns a 3-element list display, `_from_xyz` reads
+# `xyz[0..2]` behind `assert len(xyz) == 3`: AssertionError / IndexError are `Except` errors, the equality shows a
+# 3-element list raises neither); `sum([...])` is Python 3.12's compensated float sum for a list of any length
+# (`Model/SphereSum.lean`, pinned reading of the runtime), the comprehension over `zip` a map over the list of pairs;
+# `Coordinate(lon, lat)` is the pair handed to the constructor (C08's subject: `normCoord 4` on top, as in SrcCalc);
+# `EARTH_RADIUS` is the parameter `R`; `max(-1.0, min(1.0, dot))` returns the first extremal argument.
+
+def xyz_unit():
+    src = py2lean.Sources([_repo('coordinates.py'), _repo('_geometry.py')])
+    insts = [
+        Inst('Coordinate.xyz', 'xyz', [('self', 'C')], 'List N'),
+        Inst('Coordinate._from_xyz', 'fromXyz', [('cls', 'None'), ('xyz', 'List N')], 'Except C'),
+        Inst('dist_xyz_meters', 'distXyz', [('coord1', 'C'), ('coord2', 'C')], 'N'),
+    ]
+    py2lean.LEAN_TYPE.setdefault('N', 'α')
+    py2lean.LEAN_TYPE.setdefault('C', 'GV.Sphere.Coord α')
+
+    def num(a):
+        if a.typ == 'N':
+            return a.text
+        if a.typ == 'Int':
+            return f'(Num.ofI {a.text})'
+        raise Unsupported(f'a number of type {a.typ}')
+
+    def fn(name, n=1):
+        def f(tr, args):
+            if len(args) != n:
+                raise Unsupported(f'{name} applied to {len(args)} arguments')
+            return Val('(' + ' '.join([name] + [num(x) for x in args]) + ')', 'N')
+        return f
+
+    def pysum(tr, args):
+        if [x.typ for x in args] != ['List N']:
+            raise Unsupported('sum(' + ', '.join(x.typ for x in args) + ')')
+        return Val(f'(GV.Sphere.pySumList {args[0].text})', 'N')
+
+    def coordinate(tr, args):
+        if [x.typ for x in args] != ['N', 'N']:
+            raise Unsupported('Coordinate(' + ', '.join(x.typ for x in args) + ')')
+        return Val(f'({args[0].text}, {args[1].text})', 'C')
+
+    return Unit('SrcXyz', src, 'GV.Src.Xyz', ['GeoVerif.Model.Sphere', 'GeoVerif.Model.SphereSum', 'GeoVerif.Model.PyPrelude'], insts,
+                {'C': 'Coordinate'}, header='open GV Num\nvariable {α : Type} [Num α]',
+                attr_types={('C', 'longitude'): ('{}.1', 'N'), ('C', 'latitude'): ('{}.2', 'N')},
+                intrinsics={'math.sin': fn('Num.sin'), 'math.cos': fn('Num.cos'), 'math.asin': fn('Num.asin'),
+                            'math.acos': fn('Num.acos'), 'math.atan2': fn('Num.atan2', 2),
+                            'math.radians': fn('GV.Sphere.radians'), 'math.degrees': fn('GV.Sphere.degrees'),
+                            'sum': pysum, 'Coordinate': coordinate},
+                hooks={'isinstance': lambda typ: None, 'curved_gen': True, 'float_as_int': True,
+                       'decorators': {'Coordinate.xyz': ['cached_property'], 'Coordinate._from_xyz': ['classmethod']},
+                       'constants': {'EARTH_RADIUS': ('R', 'N')}},
+                ctx_params=[('R', 'α')])
+
+
+# ----------------------------------------------------------------------------------------------------------
 # geostructures/coordinates.py :: Coordinate.to_dms / from_dms / to_qdms / from_qdms and their local helpers   (C19)
 #
 # a `str` is the list of its characters (`Chars`), a float an exact rational (§3), the receiver the model's `Coord`
@@ -1967,6 +2024,7 @@ UNITS['SrcEq'] = eq_unit
 UNITS['SrcSweep'] = sweep_unit
 UNITS['SrcWkt'] = wkt_unit
 UNITS['SrcCurvedGen'] = curvedgen_unit
+UNITS['SrcXyz'] = xyz_unit
 
 
 def geojson_unit():
